@@ -23,6 +23,8 @@
 //!   /errk/<k>   return Err of io::ErrorKind k (wb, to, intr, pipe, eof, reset, other) without responding
 //!   /cont       send 100 Continue, read the body, respond (differential use only)
 //!   /reader/<n> respond with an n-byte body through the streaming printer (sendr)
+//!   API variants with the behaviour of an existing route: /allparts (into_parts, get_stream), /allvec (BodyReader::vec, send) = /all;
+//!   /closev (Headers::from(Vec)), /closes (Headers::from(slice)) = /close; /empty0 = /none with an empty body through ok0 / send0
 //! pre-routing hook: `x-hook: answer` -> the hook answers 200 "hook" and returns Drop;
 //!                   `x-hook: answer-close` -> same with connection: close.
 use crate::util::*;
@@ -45,7 +47,21 @@ fn describe(ctx: &RequestContext, body: &[u8]) -> Vec<u8> {
 pub fn app(mut ctx: RequestContext, res: &mut ResponseHandle) -> io::Result<()> {
     let path = ctx.uri.path().to_string();
     let nd = Headers::new_nodate();
-    if path.starts_with("/all") {
+    if path.starts_with("/allparts") {
+        // the same as /all through RequestContext::into_parts (and get_stream)
+        let _ = ctx.get_stream().peer_addr();
+        let (method, uri, _headers, params, _version, mut body) = ctx.into_parts();
+        let mut b = Vec::new();
+        body.read_to_end(&mut b)?;
+        let d = format!("{} {} {} {}", method.as_str(), uri.path(), uri.query().unwrap_or("-"), hex(&b)).into_bytes();
+        let _ = params.len();
+        res.ok(&nd, d)
+    } else if path.starts_with("/allvec") {
+        // the same as /all through BodyReader::vec
+        let b = ctx.body().vec()?;
+        let d = describe(&ctx, &b);
+        res.send(&Status::OK, &nd, d)
+    } else if path.starts_with("/all") {
         let mut b = Vec::new();
         ctx.body().read_to_end(&mut b)?;
         let d = describe(&ctx, &b);
@@ -106,6 +122,22 @@ pub fn app(mut ctx: RequestContext, res: &mut ResponseHandle) -> io::Result<()> 
         use io::ErrorKind::*;
         let k = match kind { "wb" => WouldBlock, "to" => TimedOut, "intr" => Interrupted, "pipe" => BrokenPipe, "eof" => UnexpectedEof, "reset" => ConnectionReset, _ => Other };
         Err(io::Error::new(k, "handler failed"))
+    } else if path.starts_with("/closev") {
+        // the close token in a header collection built with From<Vec<..>>
+        use std::borrow::Cow;
+        let h: Headers = Headers::from(vec![(Cow::Borrowed("x-a"), Cow::Borrowed(&b"1"[..])), (Cow::Borrowed("Connection"), Cow::Borrowed(&b"close"[..]))]);
+        let d = describe(&ctx, b"");
+        res.send(&Status::of(200), &h, d)
+    } else if path.starts_with("/closes") {
+        // the close token in a header collection built with From<&[(&str, &[u8])]>
+        let fields: [(&str, &[u8]); 2] = [("connection", b"Close"), ("x-b", b"2")];
+        let h: Headers = Headers::from(&fields[..]);
+        let d = describe(&ctx, b"");
+        res.ok(&h, d)
+    } else if path.starts_with("/empty0") {
+        // a body-less answer through ok0 / send0 (alternating)
+        static FLIP: AtomicBool = AtomicBool::new(false);
+        if FLIP.fetch_xor(true, Ordering::SeqCst) { res.ok0(&nd) } else { res.send0(&Status::OK, &nd) }
     } else if path.starts_with("/closerep") {
         // the close token put in place by replace() over an existing Connection field
         let mut h = Headers::new_nodate();
